@@ -87,7 +87,7 @@ def prefixFilterPair (f : FilterObj) (tok : String → List Tok) (l r : Cell) : 
   if lp ≤ 0 || rp ≤ 0 then true else
   let lpre := pyTake ol lp
   let rpre := pyTake or_ rp
-  if lpre.any (fun t => rpre.contains t) then false else true
+  if lpre.any (fun t => decide (t ∈ rpre)) then false else true
 
 def prefixFindCandidates (f : FilterObj) (probeToks : List Nat) (idx : PrefIndex) : List Nat :=
   if idx.index.isEmpty then [] else
@@ -149,7 +149,7 @@ def positionFilterPair (f : FilterObj) (tok : String → List Tok) (l r : Cell) 
   let fin := (pyTake or_ rp).foldl (fun (st : Int × Nat × Bool) t =>
       let (cur, rpos, dropped) := st
       if dropped then st else
-      if lpre.contains t then
+      if decide (t ∈ lpre) then
         let ub : Int := 1 + min ((ln : Int) - 0 - 1) ((rn : Int) - rpos - 1)
         if cur + ub < thr then (cur, rpos, true) else (cur + 1, rpos + 1, false)
       else (cur, rpos + 1, false)) ((0 : Int), 0, false)
@@ -277,7 +277,7 @@ structure OverlapFilterObj where
   deriving Repr
 
 /-- `len(set(l) ∩ set(r))` -/
-def overlapCount (l r : List Tok) : Nat := ((dedup l).filter (fun t => r.contains t)).length
+def overlapCount (l r : List Tok) : Nat := interCount l r
 
 def overlapFilterPair (f : OverlapFilterObj) (tok : String → List Tok) (l r : Cell) : Bool :=
   if l.isMissing || r.isMissing then !f.allowMissing else
